@@ -28,6 +28,8 @@ type Config struct {
 	SolverTimeout int // ms
 	SymSched      bool
 	MaxPreempt    int
+	Delays        int  // delay-bounded scheduling: deviations from the deterministic scheduler per path
+	DelayPreempt  bool // delays may also be spent at synchronisation points of the running goroutine
 	SelectFirst   bool
 	SymMapOrder   bool
 	MaxViolations int
